@@ -12,7 +12,7 @@ from simverif.core.rng import stream
 
 ID = 'C11'
 LEVEL = 'exploration'
-TIERS = {'quick': {'runs': 2400}, 'thorough': {'seconds': 600}}
+TIERS = {'quick': {'runs': 6000}, 'thorough': {'seconds': 600}}
 DET_PAIRS_PER_SLOT = 3
 RULE = ("one run = one seeded history of 20..120 routing-table operations (add / re-add with new "
         "address / same address new id / remove / report replied / report failure / kill / revive / "
